@@ -1,15 +1,7 @@
 (* Model/DidSign.v — OperatorClaims.DidSign (v2/operator_claims.go) and
    AccountClaims.DidSign (v2/account_claims.go). *)
-From JWT Require Export Base.Strings.
+From JWT Require Export Base.Strings Model.Kinds.
 Open Scope string_scope.
-
-Inductive ckind := KOperator | KAccount | KUser | KActivation | KAuthRequest | KAuthResponse | KGeneric.
-Definition ckind_eqb (a b : ckind) : bool :=
-  match a, b with
-  | KOperator, KOperator | KAccount, KAccount | KUser, KUser | KActivation, KActivation
-  | KAuthRequest, KAuthRequest | KAuthResponse, KAuthResponse | KGeneric, KGeneric => true
-  | _, _ => false
-  end.
 
 (* what DidSign looks at in the claim it is given; None = a nil claim *)
 Record sclaim := { sc_kind : ckind; sc_iss : string; sc_sub : string; sc_issuer_account : string }.
